@@ -57,7 +57,10 @@ fn no_close() -> CloseS {
 fn emit(em: &mut Emitter, stream: &'static str, spec: &Spec, extra_tags: &[&str]) {
     let ran = match catch(std::panic::AssertUnwindSafe(|| run(spec))) {
         Ok(r) => r,
-        Err(_) => panicked(),
+        Err(msg) => {
+            eprintln!("harness-level panic: {msg}");
+            panicked()
+        }
     };
     let mut tags = ran.tags;
     tags.extend(extra_tags.iter().map(|s| s.to_string()));
@@ -78,6 +81,7 @@ fn fixture(trading: bool, link0: Option<LinkS>) -> Spec {
         None => vec![LinkS::Open, LinkS::Open], // the request under test names exchange index 7
     };
     Spec {
+        builder: false,
         exset: 0,
         trading,
         links,
@@ -223,12 +227,26 @@ fn table(em: &mut Emitter) {
 /// three exchanges with the link-less one in the MIDDLE: requests naming the link-less exchange
 /// must fail fatally, requests naming the linked exchange behind it must reach exactly its link
 fn table_middle(em: &mut Emitter) {
-    for middle in [LinkS::Missing, LinkS::Closed, LinkS::Unhealthy] {
-        for (pi, path) in ["algo", "command", "action", "cancel_orders", "close_default"].iter().enumerate() {
+    use LinkS::{Closed, Missing, Open, Unhealthy};
+    // (link table, built through the public ExecutionBuilder?)
+    let topologies: Vec<(Vec<LinkS>, bool)> = vec![
+        (vec![Open, Missing, Open], false),
+        (vec![Open, Closed, Open], false),
+        (vec![Open, Unhealthy, Open], false),
+        // ExecutionBuilder: add_mock only for the Open ones; link-less exchanges sort before linked ones
+        (vec![Open, Missing, Open], true),
+        (vec![Missing, Open, Open], true),
+        (vec![Missing, Missing, Open], true),
+        (vec![Missing, Open, Missing], true),
+        (vec![Open, Open, Open], true),
+    ];
+    for (ti, (links, builder)) in topologies.iter().enumerate() {
+        for (pi, path) in ["algo", "command", "action", "cancel_orders", "close_default", "trait_cancel", "hook_close"].iter().enumerate() {
             let mut s = Spec {
-                exset: (pi % 3) as u8,
+                builder: *builder,
+                exset: ((pi + ti) % 3) as u8,
                 trading: pi == 0,
-                links: vec![LinkS::Open, middle, LinkS::Open],
+                links: links.clone(),
                 instruments: (0..3)
                     .map(|e| {
                         let mut i = inst(
@@ -255,11 +273,14 @@ fn table_middle(em: &mut Emitter) {
                 1 => (OpS::Process(EvS::Command(CmdS::SendOpens(opens.clone()))), GS::default(), no_close()),
                 2 => (OpS::Action(CmdS::SendCancels(cancels.clone())), GS::default(), no_close()),
                 3 => (OpS::Process(EvS::Command(CmdS::CancelOrders(FilterS::None))), GS::default(), no_close()),
-                _ => (OpS::Action(CmdS::ClosePositions(FilterS::None)), GS::default(), CloseS::Default { strat: 9, cid_base: 1000 }),
+                4 => (OpS::Action(CmdS::ClosePositions(FilterS::None)), GS::default(), CloseS::Default { strat: 9, cid_base: 1000 }),
+                // the public trait method called directly, and a strategy hook calling it
+                5 => (OpS::Call(CmdS::CancelOrders(FilterS::None)), GS::default(), no_close()),
+                _ => (OpS::Hook((ti % 2) as u8, CmdS::ClosePositions(FilterS::None)), GS::default(), CloseS::Default { strat: 9, cid_base: 1000 }),
             };
             // the same step three times
             s.steps = vec![StepS { op, g: gs, close, many1: false }; 3];
-            let tag = format!("table_middle_{}", path);
+            let tag = format!("table_middle_{}{}", path, if *builder { "_builder" } else { "" });
             emit(em, "table", &s, &[&tag]);
         }
     }
@@ -548,7 +569,15 @@ fn gen_history(r: &mut Rng, max_steps: u64, adversarial: bool) -> Spec {
         });
     }
     let n_links = (n_ex as i64 + *r.pick(&[-1i64, 0, 0, 0, 1])).max(0) as usize;
-    let links: Vec<LinkS> = (0..n_links).map(|_| gen_link(r, adversarial)).collect();
+    let builder = r.chance(1, 4);
+    let n_links = if builder { n_ex } else { n_links };
+    let links: Vec<LinkS> = (0..n_links)
+        .map(|_| {
+            let l = gen_link(r, adversarial);
+            // through ExecutionBuilder a link is either there (add_mock) or not
+            if builder && l != LinkS::Open { LinkS::Missing } else { l }
+        })
+        .collect();
     let ly = Layout { inst_ex: exs.clone(), n_ex };
     let n_steps = 3 + r.below(max_steps - 2);
     let mut steps = vec![];
@@ -560,9 +589,28 @@ fn gen_history(r: &mut Rng, max_steps: u64, adversarial: bool) -> Spec {
                 let (c, cl) = gen_command(r, &mut sh, &ly, adversarial);
                 (OpS::Action(c), cl)
             }
-            2 if n_links > 0 => {
+            2 if n_links > 0 && !builder => {
                 let st = *r.pick(&[LinkS::Open, LinkS::Open, LinkS::Closed, LinkS::Unhealthy, LinkS::Missing]);
                 (OpS::SetLink(r.below(n_links as u64) as usize, st), no_close())
+            }
+            3 => {
+                // the public trait methods called directly on the Engine
+                let f = gen_filter(r, &ly);
+                if r.chance(1, 2) {
+                    (OpS::Call(CmdS::CancelOrders(f)), no_close())
+                } else {
+                    (OpS::Call(CmdS::ClosePositions(f)), CloseS::Default { strat: 9, cid_base: 1000 })
+                }
+            }
+            4 => {
+                // a strategy hook (on_disconnect / on_trading_disabled) calling them
+                let f = gen_filter(r, &ly);
+                let h = r.below(3) as u8;
+                if r.chance(1, 2) {
+                    (OpS::Hook(h, CmdS::CancelOrders(f)), no_close())
+                } else {
+                    (OpS::Hook(h, CmdS::ClosePositions(f)), CloseS::Default { strat: 9, cid_base: 1000 })
+                }
             }
             _ => {
                 let (e, cl) = gen_event(r, &mut sh, &ly, adversarial);
@@ -570,6 +618,8 @@ fn gen_history(r: &mut Rng, max_steps: u64, adversarial: bool) -> Spec {
             }
         };
         let many1 = r.chance(1, 6);
+        // hook steps carry an empty strategy script
+        let g = if matches!(op, OpS::Hook(..)) { GS::default() } else { g };
         steps.push(StepS { op, g, close, many1 });
         if adversarial && r.chance(1, 8) {
             // the same operation (and script) three times in a row
@@ -578,7 +628,7 @@ fn gen_history(r: &mut Rng, max_steps: u64, adversarial: bool) -> Spec {
             steps.push(last);
         }
     }
-    Spec { exset: r.below(3) as u8, trading: r.chance(2, 3), links, instruments, steps }
+    Spec { builder, exset: r.below(3) as u8, trading: r.chance(2, 3), links, instruments, steps }
 }
 
 fn main() {
